@@ -1264,7 +1264,10 @@ impl FseDecoder {
         let mut byte_pos = compressed_data.len(); // Start from the end for rANS
         
         // Decode symbols using advanced approach
-        let mut output = Vec::with_capacity(original_size);
+        // `original_size` is a raw header field: use it as a hint only and reserve no more
+        // than a small multiple of the input (the vector grows if the data really expands
+        // further), so a corrupted header cannot drive a multi-gigabyte allocation.
+        let mut output = Vec::with_capacity(original_size.min(data.len().saturating_mul(8)));
         
         for i in 0..original_size {
             // Decode symbol first (optimal order for performance)
